@@ -47,8 +47,15 @@ def gen(rng, tier, ctx):
     opl = []
     cur = dict(base)
     session = rng.random() < 0.3        # a driver script calling main() repeatedly in one process
-    for _ in range(rng.randint(6, 40 if tier == "thorough" else 20)):
+    marathon = rng.random() < 0.012
+    if marathon:
+        session = True
+        base.update(width=1, length=rng.randint(1, 2))
+        cur = dict(base)
+    for _ in range(rng.randint(150, 400) if marathon else rng.randint(6, 40 if tier == "thorough" else 20)):
         r = rng.random()
+        if marathon:
+            r = 0.5 + r / 2         # generator invocations only, one process
         if r < 0.12:
             mv, rw, lo = pools.rand_board(rng, 3, 3)
             opl.append({"op": "gen_manual", "board": {"moves": enc(mv), "rewards": enc(rw), "loose": enc(lo),
